@@ -113,6 +113,9 @@ def check_actor_source(rep, files, main='t.case'):
     # inside an act phase line shows as a line break in the quotation
     fl = set(l.strip() for f in files.values() for l in file_lines(f))
     fl |= set(p.strip() for f in files.values() for p in f.splitlines())
+    # `help act`: at the first non-space characters of an act phase line, backslash + `[` stands for `[` and two
+    # backslashes stand for one
+    fl |= set(l[1:] for l in list(fl) if l.startswith('\\[') or l.startswith('\\\\'))
     return ['act phase report quotes %r which is not a line of the case' % s
             for s in rep['actor_source'] if s.strip() not in fl and s.strip() != '']
 
